@@ -3,29 +3,32 @@
 (* pubsub.Deque (/repo/pubsub/deque.go) for property C20.                      *)
 (*                                                                            *)
 (*   Iters     each runs successive calls of the closure built by             *)
-(*             confProducer(direction, blocking) (deque.go:309-329) wrapped   *)
+(*             confProducer(direction, blocking) (deque.go:311-332) wrapped   *)
 (*             in WithLock(dq.mtx): Producer / ProducerReverse (non-blocking) *)
 (*             ProducerBlocking / ProducerReverseBlocking, and the Iterator / *)
 (*             IteratorReverse built on them.  Dir is the direction of every  *)
 (*             iterator of the model, Blocking the set of blocking ones.      *)
-(*   helpers   the per-wait goroutine of element.wait (deque.go:471) and the  *)
+(*   helpers   the per-wait goroutine of element.wait (deque.go:478) and the  *)
 (*             `defer cancel()` that fires it when the wait returns           *)
 (*   External  Push (at the far end in iteration direction: PushBack for      *)
-(*             forward, PushFront for reverse iterators), PopFront, PopBack,  *)
-(*             Close, the start of a call, cancellation of a call's context   *)
+(*             forward, PushFront for reverse iterators), ForcePush (same     *)
+(*             end: ForcePushBack / ForcePushFront, deque.go:179-205 - on a   *)
+(*             deque at capacity it pops the element at the opposite end and  *)
+(*             pushes, in one critical section), PopFront, PopBack, Close,    *)
+(*             the start of a call, cancellation of a call's context          *)
 (*                                                                            *)
 (* The list is modelled as it is: node 0 is the root of the circular doubly   *)
 (* linked list, node n the n-th element pushed, nxt/prv the pointers.  pop    *)
-(* (deque.go:388-412) unlinks the element from its neighbours and leaves the  *)
+(* (deque.go:392-417) unlinks the element from its neighbours and leaves the  *)
 (* element's own pointers untouched ("in case we're using this item in an     *)
 (* iterator"), so no pointer an iterator can reach is ever nil: the nil       *)
-(* check of confProducer (deque.go:322) is dead code and `never follows a nil *)
+(* check of confProducer (deque.go:325) is dead code and `never follows a nil *)
 (* pointer` is the structural invariant PointersOK.  An element popped while  *)
 (* it was last keeps pointing at the root for ever.                           *)
 (*                                                                            *)
 (* The whole producer call runs under the deque mutex; element.wait releases  *)
 (* it only inside cond.Wait() (Park / Wake).  Every waiter Signals its own    *)
-(* cond before each cond.Wait() (deque.go:479): two waiters on one cond wake  *)
+(* cond before each cond.Wait() (deque.go:486): two waiters on one cond wake  *)
 (* each other for ever (DESIGN.md 3.3) - explored for safety only             *)
 (* (MC_iter_pingpong.cfg), liveness is checked with one blocking iterator.    *)
 (*                                                                            *)
@@ -35,14 +38,20 @@
 (*   CloseBroadcasts 58b061a Close wakes all waiters                          *)
 (*   HelperLocked    8d14576 helpers broadcast under the mutex                *)
 (*                                                                            *)
-(* Deliberate deviations: values are node numbers; pushes at the near end     *)
-(* (which a positioned iterator can never see) and the capacity tracker are   *)
-(* left out - every Push that happens is an admitted one.                     *)
+(*   EvictKeepsItem  (no commit: /repo HEAD never touches element.item) -     *)
+(*                   FALSE: a Force push zeroes the item of the element it    *)
+(*                   evicts; an iterator walking through that element yields  *)
+(*                   a value nobody pushed (non-vacuity of YieldsArePushed)   *)
+(*                                                                            *)
+(* Deliberate deviations: item[n] = n is the value pushed with node n (0 is   *)
+(* the zero value); pushes at the near end (which a positioned iterator can   *)
+(* never see) are left out; the tracker is a fixed capacity Cap (0: none) -   *)
+(* a plain Push on a full deque fails (addAfter broadcasts `updates`).        *)
 (***************************************************************************)
 EXTENDS Integers, Sequences, FiniteSets, TLC
 
-CONSTANTS Iters, Blocking, Dir, MaxPush, MaxCalls, Budget, AllowPop,
-          SignalFixed, CloseBroadcasts, HelperLocked
+CONSTANTS Iters, Blocking, Dir, MaxPush, MaxCalls, Budget, AllowPop, Cap, AllowForce,
+          SignalFixed, CloseBroadcasts, HelperLocked, EvictKeepsItem
 
 ASSUME Dir \in {"fwd", "rev"} /\ Blocking \subseteq Iters
 
@@ -54,19 +63,19 @@ NB == "nback"
 UP == "updates"
 Conds == {NF, NB, UP}
 
-VARIABLES nxt, prv, npushed, present, closed,             \* the deque
+VARIABLES nxt, prv, item, npushed, present, closed,       \* the deque
           mu, waitq, woken,                               \* mutex, notify lists, signalled waiters
           pc, cur, capt, cnd, done, armed, due,           \* per iterator: control, cursor, captured neighbour, cond, ctx, helpers
           yields, last, calls, started, tainted, eofok,   \* history variables
           budget
 
-vars == <<nxt, prv, npushed, present, closed, mu, waitq, woken, pc, cur, capt, cnd, done, armed, due,
+vars == <<nxt, prv, item, npushed, present, closed, mu, waitq, woken, pc, cur, capt, cnd, done, armed, due,
           yields, last, calls, started, tainted, eofok, budget>>
-qvars == <<nxt, prv, npushed, present, closed>>
+qvars == <<nxt, prv, item, npushed, present, closed>>
 hvars == <<yields, last, calls, started, tainted, eofok>>
 
 Init == /\ nxt = [n \in Node |-> IF n = 0 THEN 0 ELSE Nil] /\ prv = [n \in Node |-> IF n = 0 THEN 0 ELSE Nil]
-        /\ npushed = 0 /\ present = {} /\ closed = FALSE
+        /\ item = [n \in Node |-> 0] /\ npushed = 0 /\ present = {} /\ closed = FALSE
         /\ mu = Free /\ waitq = [c \in Conds |-> <<>>] /\ woken = {}
         /\ pc = [i \in Iters |-> "idle"] /\ cur = [i \in Iters |-> Nil] /\ capt = [i \in Iters |-> Nil]
         /\ cnd = [i \in Iters |-> UP] /\ done = [i \in Iters |-> FALSE]
@@ -101,45 +110,72 @@ Start(i) == /\ pc[i] = "idle" /\ calls[i] < MaxCalls /\ last[i] # "eof"
 Cancel(i) == /\ InCall(i) /\ ~done[i] /\ done' = [done EXCEPT ![i] = TRUE]
              /\ UNCHANGED <<qvars, mu, waitq, woken, pc, cur, capt, cnd, armed, due, hvars, budget>>
 
-\* addAfter(value, after) (deque.go:354-382): PushBack -> after = root.prev, PushFront -> after = root
+\* addAfter(value, after) (deque.go:357-386) on the list <<nx, pv>> with notify state w: PushBack -> after =
+\* root.prev, PushFront -> after = root.  Result: <<nxt, prv, w>>
+AddAfter(nx, pv, w, n) ==
+  LET after == IF Dir = "fwd" THEN pv[0] ELSE 0
+      an == nx[after]
+      nxt2 == [nx EXCEPT ![n] = an, ![after] = n]
+      prv2 == [[pv EXCEPT ![n] = after] EXCEPT ![an] = n]
+      sf == IF SignalFixed THEN nxt2[n] = 0 ELSE after = 0
+      sb == IF SignalFixed THEN prv2[n] = 0 ELSE prv2[after] = 0
+      w1 == IF sf THEN Sig(w, NF) ELSE w
+      w2 == IF sb THEN Sig(w1, NB) ELSE w1
+  IN <<nxt2, prv2, Sig(w2, UP)>>
+
+\* pop(it) (deque.go:392-417): unlink it from its neighbours, keep its own pointers; deferred notifications
+Unlink(nx, pv, w, it) ==
+  LET w1 == Bc(w, UP)
+      w2 == IF nx[it] = 0 THEN Sig(w1, NB) ELSE w1
+      w3 == IF pv[it] = 0 THEN Sig(w2, NF) ELSE w2
+  IN <<[nx EXCEPT ![pv[it]] = nx[it]], [pv EXCEPT ![nx[it]] = pv[it]], w3>>
+
+Full == Cap > 0 /\ Cardinality(present) >= Cap
+
+\* PushBack / PushFront; on a full deque tracker.add fails: addAfter broadcasts `updates` and changes nothing
 Push == /\ budget > 0 /\ mu = Free /\ ~closed /\ npushed < MaxPush /\ budget' = budget - 1
-        /\ LET after == IF Dir = "fwd" THEN prv[0] ELSE 0
-               n == npushed + 1
-               an == nxt[after]
-               nxt2 == [nxt EXCEPT ![n] = an, ![after] = n]
-               prv2 == [[prv EXCEPT ![n] = after] EXCEPT ![an] = n]
-               sf == IF SignalFixed THEN nxt2[n] = 0 ELSE after = 0
-               sb == IF SignalFixed THEN prv2[n] = 0 ELSE prv2[after] = 0
-               w1 == IF sf THEN Sig(W0, NF) ELSE W0
-               w2 == IF sb THEN Sig(w1, NB) ELSE w1
-           IN /\ nxt' = nxt2 /\ prv' = prv2 /\ npushed' = n /\ present' = present \cup {n}
-              /\ SetW(Sig(w2, UP))
+        /\ IF Full THEN SetW(Bc(W0, UP)) /\ UNCHANGED <<nxt, prv, item, npushed, present>>
+           ELSE LET n == npushed + 1
+                    r == AddAfter(nxt, prv, W0, n)
+                IN /\ nxt' = r[1] /\ prv' = r[2] /\ SetW(r[3])
+                   /\ item' = [item EXCEPT ![n] = n] /\ npushed' = n /\ present' = present \cup {n}
         /\ UNCHANGED <<closed, mu, pc, cur, capt, cnd, done, armed, due, hvars>>
 
-\* PopFront / PopBack -> pop(root.next / root.prev) (deque.go:388-412); a pop after an iterator's first
-\* call is a concurrent removal for that iterator
+\* ForcePushBack / ForcePushFront (deque.go:179-205): if cap() == len() pop the element at the opposite (near)
+\* end, then addAfter - one critical section.  The eviction is a concurrent removal for every started iterator.
+ForcePush ==
+  /\ AllowForce /\ budget > 0 /\ mu = Free /\ ~closed /\ npushed < MaxPush /\ budget' = budget - 1
+  /\ LET n == npushed + 1
+         evict == Cap > 0 /\ Cardinality(present) = Cap
+         it == IF Dir = "fwd" THEN nxt[0] ELSE prv[0]
+         u == IF evict THEN Unlink(nxt, prv, W0, it) ELSE <<nxt, prv, W0>>
+         r == AddAfter(u[1], u[2], u[3], n)
+     IN /\ nxt' = r[1] /\ prv' = r[2] /\ SetW(r[3]) /\ npushed' = n
+        /\ present' = (IF evict THEN present \ {it} ELSE present) \cup {n}
+        /\ item' = [item EXCEPT ![n] = n, ![it] = IF evict /\ ~EvictKeepsItem /\ it # n THEN 0 ELSE @]
+        /\ tainted' = IF evict THEN [i \in Iters |-> tainted[i] \/ started[i]] ELSE tainted
+  /\ UNCHANGED <<closed, mu, pc, cur, capt, cnd, done, armed, due, yields, last, calls, started, eofok>>
+
+\* PopFront / PopBack -> pop(root.next / root.prev); a pop after an iterator's first call is a concurrent
+\* removal for that iterator
 Pop(end) == /\ AllowPop /\ budget > 0 /\ mu = Free /\ ~closed /\ present # {} /\ budget' = budget - 1
             /\ LET it == IF end = "f" THEN nxt[0] ELSE prv[0]
-                   w1 == Bc(W0, UP)
-                   w2 == IF nxt[it] = 0 THEN Sig(w1, NB) ELSE w1
-                   w3 == IF prv[it] = 0 THEN Sig(w2, NF) ELSE w2
-               IN /\ nxt' = [nxt EXCEPT ![prv[it]] = nxt[it]]
-                  /\ prv' = [prv EXCEPT ![nxt[it]] = prv[it]]
-                  /\ present' = present \ {it} /\ SetW(w3)
+                   u == Unlink(nxt, prv, W0, it)
+               IN nxt' = u[1] /\ prv' = u[2] /\ SetW(u[3]) /\ present' = present \ {it}
             /\ tainted' = [i \in Iters |-> tainted[i] \/ started[i]]
-            /\ UNCHANGED <<npushed, closed, mu, pc, cur, capt, cnd, done, armed, due, yields, last, calls, started, eofok>>
+            /\ UNCHANGED <<item, npushed, closed, mu, pc, cur, capt, cnd, done, armed, due, yields, last, calls, started, eofok>>
 
 Close == /\ budget > 0 /\ mu = Free /\ ~closed /\ budget' = budget - 1 /\ closed' = TRUE
          /\ IF CloseBroadcasts THEN SetW(Bc(Bc(Bc(W0, NF), NB), UP)) ELSE UNCHANGED <<waitq, woken>>
-         /\ UNCHANGED <<nxt, prv, npushed, present, mu, pc, cur, capt, cnd, done, armed, due, hvars>>
+         /\ UNCHANGED <<nxt, prv, item, npushed, present, mu, pc, cur, capt, cnd, done, armed, due, hvars>>
 
-External == Push \/ Close \/ (\E e \in {"f", "b"} : Pop(e)) \/ \E i \in Iters : Start(i) \/ Cancel(i)
+External == Push \/ ForcePush \/ Close \/ (\E e \in {"f", "b"} : Pop(e)) \/ \E i \in Iters : Start(i) \/ Cancel(i)
 
 (* ------------------------------------------------------------ Internal *)
 LeaveWait(i) == /\ armed' = [armed EXCEPT ![i] = FALSE]
                 /\ due' = IF armed[i] THEN [due EXCEPT ![cnd[i]] = @ + 1] ELSE due
 
-\* deque.go:321-327: next := current.getNextOrPrevious(direction); root -> io.EOF; else advance and yield
+\* deque.go:324-330: next := current.getNextOrPrevious(direction); root -> io.EOF; else advance and yield
 Finish(i, c) ==
   LET nx == Get(c) IN
   /\ pc' = [pc EXCEPT ![i] = "idle"]
@@ -147,7 +183,7 @@ Finish(i, c) ==
        THEN /\ last' = [last EXCEPT ![i] = "eof"] /\ cur' = [cur EXCEPT ![i] = c] /\ UNCHANGED yields
             /\ eofok' = [eofok EXCEPT ![i] = tainted[i] \/ (Len(yields[i]) = Len(ListSeq) /\ i \notin Blocking)]
        ELSE /\ last' = [last EXCEPT ![i] = "item"] /\ cur' = [cur EXCEPT ![i] = nx]
-            /\ yields' = [yields EXCEPT ![i] = Append(@, nx)] /\ UNCHANGED eofok
+            /\ yields' = [yields EXCEPT ![i] = Append(@, item[nx])] /\ UNCHANGED eofok
 
 \* WithLock: lock; if current == nil { current = root }; blocking and at the end -> element.wait
 \* (choose the cond, start the helper, capture the neighbour); otherwise finish in this critical section
@@ -163,7 +199,7 @@ DEnter(i) ==
        ELSE Finish(i, c) /\ UNCHANGED <<mu, capt, cnd, armed>>
   /\ UNCHANGED <<qvars, waitq, woken, done, due, calls, started, tainted, budget>>
 
-\* element.wait (deque.go:474-490): for next == it.getNextOrPrevious(direction) { closed -> ErrQueueClosed;
+\* element.wait (deque.go:481-497): for next == it.getNextOrPrevious(direction) { closed -> ErrQueueClosed;
 \* cond.Signal(); ctx.Done -> ctx.Err(); default -> cond.Wait() }
 DLoop(i) ==
   /\ pc[i] = "loop" /\ mu = i
